@@ -162,4 +162,161 @@ theorem recv_ok_fix (k : Kcp) (buflen : Nat) (h : (recv k buflen).n ≥ 0) : Mov
       · exact moveReady_fix { k with rcv_queue := (popMsg k.rcv_queue).rest }
       · exact moveReady_fix _
 
+/-! ### the receive-side store -/
+
+theorem mem_heapInsert (s : Seg) (l : List Seg) : s ∈ heapInsert s l := by
+  induction l with
+  | nil => simp [heapInsert]
+  | cons h t ih =>
+    unfold heapInsert
+    split
+    · exact List.mem_cons_self
+    · exact List.mem_cons_of_mem _ ih
+
+/-- a new in-window segment of admissible size is stored: it is in `rcv_buf` or already moved to
+`rcv_queue`; nothing else enters or leaves the two -/
+theorem parseData_store (k : Kcp) (s : Seg)
+    (h1 : itimediff s.sn (k.rcv_nxt + k.rcv_wnd) < 0) (h2 : itimediff s.sn k.rcv_nxt ≥ 0)
+    (h3 : k.rcv_buf.any (fun x => x.sn = s.sn) = false) (h4 : s.data.length ≤ mtuLimit) :
+    (parseData k s).panic = false ∧ (parseData k s).rep = false ∧
+    (parseData k s).k.rcv_queue ++ (parseData k s).k.rcv_buf = k.rcv_queue ++ heapInsert s k.rcv_buf := by
+  unfold parseData
+  rw [if_neg (by omega), h3]
+  simp only [Bool.false_eq_true, ↓reduceIte]
+  rw [if_neg (by omega)]
+  refine ⟨rfl, rfl, ?_⟩
+  unfold moveReady
+  exact moveLoop_concat _ _ _ _
+
+/-- a duplicate of a buffered segment changes neither the set of buffered nor of queued segments -/
+theorem parseData_dup (k : Kcp) (s : Seg)
+    (h1 : itimediff s.sn (k.rcv_nxt + k.rcv_wnd) < 0) (h2 : itimediff s.sn k.rcv_nxt ≥ 0)
+    (h3 : k.rcv_buf.any (fun x => x.sn = s.sn) = true) :
+    (parseData k s).panic = false ∧ (parseData k s).rep = true ∧
+    (parseData k s).k.rcv_queue ++ (parseData k s).k.rcv_buf = k.rcv_queue ++ k.rcv_buf := by
+  unfold parseData
+  rw [if_neg (by omega), h3]
+  simp only [↓reduceIte]
+  refine ⟨trivial, trivial, ?_⟩
+  unfold moveReady
+  exact moveLoop_concat _ _ _ _
+
+/-! ### probe bits -/
+
+/-- the ASK_TELL bit is bit 1 -/
+theorem tell_iff (x : U32) : x &&& u32 IKCP_ASK_TELL ≠ 0 ↔ x.getLsbD 1 = true := by
+  simp only [u32, IKCP_ASK_TELL]
+  rw [show BitVec.ofNat 32 2 = BitVec.twoPow 32 1 from by decide, BitVec.and_twoPow]
+  cases h : x.getLsbD 1 <;> simp
+  decide
+
+theorem tell_or (x : U32) : (x ||| u32 IKCP_ASK_TELL) &&& u32 IKCP_ASK_TELL ≠ 0 := by
+  rw [tell_iff, BitVec.getLsbD_or]
+  simp only [u32, IKCP_ASK_TELL]
+  rw [show (BitVec.ofNat 32 2).getLsbD 1 = true from by decide, Bool.or_true]
+
+theorem tell_or_any (x y : U32) (h : x &&& u32 IKCP_ASK_TELL ≠ 0) : (x ||| y) &&& u32 IKCP_ASK_TELL ≠ 0 := by
+  rw [tell_iff] at h ⊢
+  rw [BitVec.getLsbD_or, h, Bool.true_or]
+
+section
+variable (regular : Bool) (conv : U32) (cmd frg : BitVec 8) (wnd : BitVec 16) (ts sn una : U32)
+  (payload : Bytes) (st : InLoop)
+
+/-- a step leaves `probe` alone or sets ASK_TELL (only WASK does) -/
+theorem inStep_probe :
+    (inStep regular conv cmd frg wnd ts sn una payload st).k.probe =
+      if cmd.toNat = IKCP_CMD_WASK then st.k.probe ||| u32 IKCP_ASK_TELL else st.k.probe := by
+  have hp := (inPre_rcv regular wnd una st.k).2.2.2.1
+  rw [inStep_k]
+  by_cases h1 : cmd.toNat = IKCP_CMD_ACK
+  · have hnw : ¬ cmd.toNat = IKCP_CMD_WASK := by rw [h1]; decide
+    rw [if_pos h1, if_neg hnw]
+    obtain ⟨b, e1⟩ := parseAck_frame (inPre regular wnd una st.k) sn
+    obtain ⟨b2, e2⟩ := parseFastack_frame (parseAck (inPre regular wnd una st.k) sn) sn ts
+    rw [e2, e1]; exact hp
+  · rw [if_neg h1]
+    by_cases h2 : cmd.toNat = IKCP_CMD_PUSH
+    · have hnw : ¬ cmd.toNat = IKCP_CMD_WASK := by rw [h2]; decide
+      rw [if_pos h2, if_neg hnw]
+      split
+      · split
+        · obtain ⟨rb, rq, rn, h⟩ := parseData_frame
+            { inPre regular wnd una st.k with acklist := (inPre regular wnd una st.k).acklist ++ [⟨sn, ts⟩] }
+            (pushSeg conv cmd frg wnd ts sn una payload)
+          rw [h]; exact hp
+        · exact hp
+      · exact hp
+    · rw [if_neg h2]
+      split
+      · simp only [hp]
+      · exact hp
+
+theorem inStep_tell_mono (h : st.k.probe &&& u32 IKCP_ASK_TELL ≠ 0) :
+    (inStep regular conv cmd frg wnd ts sn una payload st).k.probe &&& u32 IKCP_ASK_TELL ≠ 0 := by
+  rw [inStep_probe]
+  split
+  · exact tell_or _
+  · exact h
+end
+
+theorem inputLoop_tell_mono (regular : Bool) (fuel : Nat) (data : Bytes) (st : InLoop)
+    (h : st.k.probe &&& u32 IKCP_ASK_TELL ≠ 0) :
+    (inputLoop regular fuel data st).k.probe &&& u32 IKCP_ASK_TELL ≠ 0 := by
+  apply inputLoop_induct regular (fun x => x.k.probe &&& u32 IKCP_ASK_TELL ≠ 0)
+  · intro st' r h'; exact h'
+  · intro conv cmd frg wnd ts sn una payload st' _ _ _ h'
+    exact inStep_tell_mono regular conv cmd frg wnd ts sn una payload st' h'
+  · exact h
+
+theorem probePhase_probe (k : Kcp) (now : U32) :
+    (probePhase k now).probe = k.probe ∨ (probePhase k now).probe = k.probe ||| u32 IKCP_ASK_SEND := by
+  unfold probePhase
+  split
+  · split
+    · exact Or.inl rfl
+    · split
+      · exact Or.inr rfl
+      · exact Or.inl rfl
+  · exact Or.inl rfl
+
+/-- a pending ASK_TELL is answered by the next flush of either type: a WINS header with the window
+computed at this flush is written, and `probe` is cleared -/
+theorem flush_wins (k : Kcp) (full : Bool) (now : U32) (h : k.probe &&& u32 IKCP_ASK_TELL ≠ 0) :
+    (flush k full now).k.probe = 0 ∧
+    ((flush k full now).panic = false → ∃ pre post, (flush k full now).outs.flatten =
+      pre ++ encodeHdr k.conv (BitVec.ofNat 8 IKCP_CMD_WINS) 0 (wndUnused k) (flAck k).sc.ts (flAck k).sc.sn k.rcv_nxt 0
+        ++ post) := by
+  constructor
+  · obtain ⟨_, _, _, _, _, _, hk⟩ := flush_frame k full now
+    rw [hk]
+  · intro hp
+    rw [flush_panic] at hp
+    have hg := grow_F3b_end k full now
+    have hp3 := hg.noPanic hp
+    obtain ⟨pw, tp, pr, hpp⟩ := probePhase_frame { k with acklist := [] } now
+    have hconv : (flF3a k now).k.conv = k.conv := by rw [flF3a_k, flF2_k, hpp]
+    have hprobe : (flF3a k now).k.probe &&& u32 IKCP_ASK_TELL ≠ 0 := by
+      rw [flF3a_k, flF2_k]
+      rcases probePhase_probe { k with acklist := [] } now with e | e
+      · rw [e]; exact h
+      · rw [e]; exact tell_or_any _ _ h
+    unfold flF3b at hp3 hg
+    rw [if_pos hprobe, hconv] at hp3 hg
+    have hw := Fl.putHdr_wire _ _ hp3
+    rw [Fl.makeSpace_wire] at hw
+    obtain ⟨post, hpost⟩ := hg.keeps hw.1
+    exact ⟨_, post, by rw [flush_wire, hpost]⟩
+
+/-! ### throttling -/
+
+/-- with a zero remote window the effective window of phase 4 is zero -/
+theorem effWnd_zero (k : Kcp) (h : k.rmt_wnd = 0) : effWnd k = 0 := by
+  unfold effWnd
+  rw [h]
+  generalize k.snd_wnd = a
+  generalize k.cwnd = c
+  repeat' split
+  all_goals bv_omega
+
 end KcpVerif.Kcp
